@@ -23,12 +23,18 @@ struct QEngine : vh::FakeEngine
   std::map<SessionId, int> est;               // 0 none, 1 connecting, 2 established, 3 closed
   std::function<void(SessionId)> window;      // single-threaded mode: what the "I/O thread" does inside connectSync's unlock window
   void note(char kind, const std::string& s);
-  ConnectResult connect(const std::string&, std::uint16_t, TlsMode) override
+  bool refuse = false;                        // connect() returns an error like TcpEngine::connect on a closed queue
+  ConnectResult connect(const std::string&, std::uint16_t, TlsMode tls) override
   {
     std::lock_guard<std::mutex> lk(qm);
+    if (refuse)
+    {
+      note('K', "refused");
+      return ConnectResult::err(TransportErrorInfo{TransportError::ShuttingDown, "connect: transport shutting down"});
+    }
     SessionId s = next++;
     q.push_back(Cmd{'C', s});
-    note('K', "created:" + std::to_string(s));
+    note('K', "created:" + std::to_string(s) + ":tls=" + (tls == TlsMode::None ? "0" : tls == TlsMode::Client ? "1" : "2"));   // the mode the ENGINE was asked for
     qcv.notify_all();
     return ConnectResult::ok(s);
   }
@@ -92,15 +98,36 @@ std::string takeEvs()
 std::string resName(const ConnectResult& r)
 {
   if (r.isOk()) return "ok:" + std::to_string(r.value());
-  TransportError c = r.error().code;
-  if (c == TransportError::Timeout) return "err:Timeout";
-  if (c == TransportError::ShuttingDown) return "err:ShuttingDown";
-  if (c == TransportError::Cancelled) return "err:Cancelled";
-  return "err:Closed";      // whatever reason the engine's onClose carried
+  switch (r.error().code)
+  {
+    case TransportError::Timeout: return "err:Timeout";
+    case TransportError::ShuttingDown: return "err:ShuttingDown";
+    case TransportError::Cancelled: return "err:Cancelled";
+    case TransportError::Connect: return "err:Connect";
+    case TransportError::Resolve: return "err:Resolve";
+    case TransportError::TLSHandshake: return "err:TLSHandshake";
+    case TransportError::Unknown: return "err:Unknown";
+    case TransportError::PeerClosed: return "err:PeerClosed";
+    default: return std::string("err:other-") + errName(r.error().code);
+  }
+}
+
+// reason classes the scripted engine reports through onClose (same numbering as Driver/ConnectSync.lean reasonName)
+TransportError reasonCode(int r)
+{
+  switch (r)
+  {
+    case 1: return TransportError::Connect;
+    case 2: return TransportError::Resolve;
+    case 3: return TransportError::Timeout;
+    case 4: return TransportError::TLSHandshake;
+    case 5: return TransportError::Unknown;
+    default: return TransportError::PeerClosed;
+  }
 }
 
 // ---- I/O-thread actions (performed by whichever thread plays the I/O thread) -------------------------------------------
-std::string ioPop(bool succeeds)
+std::string ioPop(bool succeeds, int failReason = 1)
 {
   QEngine::Cmd c{0, 0};
   {
@@ -110,14 +137,14 @@ std::string ioPop(bool succeeds)
     g->e->q.pop_front();
   }
   std::string d = std::string("cmd:") + (c.kind == 'C' ? "connect:" : "close:") + std::to_string(c.sid);
-  if (g->sched) mark('B', std::string("ioPop ") + (succeeds ? "1" : "0") + " " + d);
+  if (g->sched) mark('B', std::string("ioPop ") + (succeeds ? "1" : "0") + " " + std::to_string(c.kind == 'C' ? (succeeds ? 5 : failReason) : 5) + " " + d);
   if (c.kind == 'C')
   {
     if (succeeds) g->e->est[c.sid] = 1;
     else
     {
       g->e->est[c.sid] = 3;
-      g->e->cbs.onClose(c.sid, TransportErrorInfo{TransportError::Connect, "connect failed"});
+      g->e->cbs.onClose(c.sid, TransportErrorInfo{reasonCode(failReason), "connect failed"});
     }
   }
   else
@@ -144,13 +171,14 @@ bool ioComplete(SessionId sid)
   return true;
 }
 
-bool ioCloseOf(SessionId sid, bool peer)
+bool ioCloseOf(SessionId sid, bool peer, int reason = 1)
 {
   int& st = g->e->est[sid];
   if (st != (peer ? 2 : 1)) return false;
   st = 3;
-  if (g->sched) mark('B', std::string(peer ? "ioPeerClose " : "ioFail ") + std::to_string(sid));
-  g->e->cbs.onClose(sid, TransportErrorInfo{peer ? TransportError::PeerClosed : TransportError::Connect, "closed"});
+  if (peer) reason = 6;
+  if (g->sched) mark('B', std::string(peer ? "ioPeerClose " : "ioFail ") + std::to_string(sid) + " " + std::to_string(reason));
+  g->e->cbs.onClose(sid, TransportErrorInfo{reasonCode(reason), "closed"});
   if (g->sched) mark('E', "-");
   return true;
 }
@@ -175,7 +203,8 @@ std::string stateLine()
 // ------------------------------------------------------------------------------------------------------------------
 // DetSched programs:
 //   sched <seed|c:choices> <timeoutOneIn> <spuriousOneIn> pol <letters> t <ops…> t <ops…> …
-// policy letter of the k-th created session: o complete as soon as possible, f fail when the Connect is popped, r fail later,
+// policy letter of the k-th created session: o complete as soon as possible, f/u fail when the Connect is popped (refused / unresolved),
+//   r/t/s fail later (refused / engine-side connect timeout / TLS handshake failure),
 //   n never complete, l complete only once the caller's Close for it is queued (the late completion), p complete then peer-close
 // thread ops: k:<timeoutMs> connectSync, w:<timeoutMs> connectSyncCancellable (token of this thread), x:<appIndex> cancel that
 //   thread's token, f fence (setTeardownFence), y yield
@@ -217,15 +246,18 @@ void ioLoop(const Prog& p)
     if (acted) continue;
     if (haveCmd)
     {
-      bool succ = !(head.kind == 'C' && policyOf(p, head.sid) == 'f');
-      ioPop(succ);
+      char hp = head.kind == 'C' ? policyOf(p, head.sid) : 'o';
+      bool succ = !(hp == 'f' || hp == 'u');
+      ioPop(succ, hp == 'u' ? 2 : 1);     // a Connect failing at once: refused / unresolved
+
       continue;
     }
     for (auto& kv : g->e->est)
     {
       char pol = policyOf(p, kv.first);
       if (kv.second == 1 && (pol == 'o' || pol == 'p')) { ioComplete(kv.first); acted = true; break; }
-      if (kv.second == 1 && pol == 'r') { ioCloseOf(kv.first, false); acted = true; break; }
+      if (kv.second == 1 && (pol == 'r' || pol == 't' || pol == 's'))
+      { ioCloseOf(kv.first, false, pol == 'r' ? 1 : pol == 't' ? 3 : 4); acted = true; break; }   // later: refused / engine-side connect timeout / TLS failure
       if (kv.second == 2 && pol == 'p' && !peerDone.count(kv.first)) { peerDone.insert(kv.first); ioCloseOf(kv.first, true); acted = true; break; }
     }
     if (acted) continue;
@@ -241,13 +273,20 @@ void appThread(const std::vector<std::string>& ops, int idx)
   for (auto& op : ops)
   {
     u64 a = 0;
-    if ((op[0] == 'k' || op[0] == 'w') && op.size() > 2 && vh::parseNat(op.substr(2), a))
+    if ((op[0] == 'k' || op[0] == 'w') && op.size() > 2)
     {
+      std::string rest = op.substr(2);
+      std::string tmo = rest.substr(0, rest.find(':'));
+      u64 tlsv = 0;
+      if (rest.find(':') != std::string::npos) vh::parseNat(rest.substr(rest.find(':') + 1), tlsv);
+      if (!vh::parseNat(tmo, a)) continue;
       bool wrapped = op[0] == 'w';
-      mark('B', std::string("call ") + std::to_string(idx) + " " + (wrapped ? "1" : "0"));
+      TlsMode tm = tlsv == 1 ? TlsMode::Client : tlsv == 2 ? TlsMode::Server : TlsMode::None;
+      if (tlsv > 2) tlsv = 0;
+      mark('B', std::string("call ") + std::to_string(idx) + " " + (wrapped ? "1" : "0") + " " + std::to_string(tlsv) + " " + std::to_string(a));
       ConnectResult r = wrapped
-        ? g->t->connectSyncCancellable("127.0.0.1", 9, *g_tokens[idx], TlsMode::None, std::chrono::milliseconds(a))
-        : g->t->connectSync("127.0.0.1", 9, TlsMode::None, std::chrono::milliseconds(a));
+        ? g->t->connectSyncCancellable("127.0.0.1", 9, *g_tokens[idx], tm, std::chrono::milliseconds(a))
+        : g->t->connectSync("127.0.0.1", 9, tm, std::chrono::milliseconds(a));
       mark('E', "ret:" + std::to_string(idx) + ":" + resName(r));
     }
     else if (op[0] == 'x' && op.size() > 2 && vh::parseNat(op.substr(2), a))
@@ -261,6 +300,12 @@ void appThread(const std::vector<std::string>& ops, int idx)
       mark('B', "fence");
       g->t->_impl->setTeardownFence();
       mark('E', "-");
+    }
+    else if (op == "R")
+    {
+      // from now on engine->connect refuses (what TcpEngine::connect does once its queue is closed, e.g. after a plain stop())
+      std::lock_guard<std::mutex> lk(g->e->qm);
+      g->e->refuse = true;
     }
     else if (op == "y") ds::yield_point("y");
   }
@@ -350,10 +395,12 @@ std::string runSched(const std::vector<std::string>& t)
     int nlock = 0;            // handler ops: syncMutex acquisitions so far
     int phase = 0;            // caller: 0 expect cEnter, 1 inside attempt before wait, 2 waiting, 3 expect relock, 4 between attempts (wrapped)
     long loopSlot = -1;       // placeholder step for the wrapper's loop check
+    long long startVt = 0;
     bool waited = false;
   };
   std::map<int, Cur> cur;
   std::vector<StepLine> steps;
+  std::vector<std::string> times, cancels;
   const auto& tr = ds::trace();
   const auto& ms = marks();
   std::size_t mi = 0;
@@ -369,9 +416,17 @@ std::string runSched(const std::vector<std::string>& t)
       c.active = true;
       c.args = vh::split(m.text);
       c.kind = c.args[0];
-      if (c.kind == "ioPop") c.last = push(m.tid, "ioPop " + c.args[1], c.args[2]);
-      else if (c.kind == "call") c.last = push(m.tid, "call " + c.args[1] + " " + c.args[2], "-");
-      else if (c.kind == "cancel") c.last = push(m.tid, "cancel " + c.args[1], "-");
+      if (c.kind == "ioPop") c.last = push(m.tid, "ioPop " + c.args[1] + " " + c.args[2], c.args[3]);
+      else if (c.kind == "call")
+      {
+        c.last = push(m.tid, "call " + c.args[1] + " " + c.args[2] + " " + c.args[3], "-");
+        c.startVt = m.vt;
+      }
+      else if (c.kind == "cancel")
+      {
+        c.last = push(m.tid, "cancel " + c.args[1], "-");
+        cancels.push_back(c.args[1] + ":" + std::to_string(m.vt / 1000));
+      }
       else if (c.kind == "fence") { /* the step is the lock acquisition */ }
       else c.last = push(m.tid, m.text, "-");     // ioComplete / ioFail / ioPeerClose
     }
@@ -390,11 +445,15 @@ std::string runSched(const std::vector<std::string>& t)
         if (steps[c.last].observed == "-") steps[c.last].observed = m.text;
         else steps[c.last].observed += ";" + m.text;
       }
+      if (c.kind == "call")   // virtual time the call took: <caller>:<wrapped>:<requested ms>:<elapsed us>:<start us>:<result>
+        times.push_back(c.args[1] + ":" + c.args[2] + ":" + c.args[4] + ":" + std::to_string((m.vt - c.startVt) / 1000) + ":" +
+                        std::to_string(c.startVt / 1000) + ":" + m.text.substr(m.text.find(':', 4) + 1));
       c.active = false;
     }
     else if (m.kind == 'K')
     {
       if (m.text.rfind("created:", 0) == 0) { c.last = push(m.tid, "cConnect " + c.args[1], m.text); c.phase = 1; }
+      else if (m.text == "refused") { c.last = push(m.tid, "cRefuse " + c.args[1], "-"); c.phase = 1; }
       else if (m.text.rfind("engineClose:", 0) == 0)
       {
         c.last = push(m.tid, "cClose " + c.args[1], m.text);
@@ -471,7 +530,8 @@ std::string runSched(const std::vector<std::string>& t)
   std::vector<std::string> open;
   for (auto& kv : w->e->est) if (kv.second == 1 || kv.second == 2) open.push_back(std::to_string(kv.first));
   std::size_t qleft = w->e->q.size();
-  out += " | " + ds::choicesString() + " | io=" + std::to_string(ioTid) + " open=" + join(open, ",") + " q=" + std::to_string(qleft);
+  out += " | " + ds::choicesString() + " | io=" + std::to_string(ioTid) + " open=" + join(open, ",") + " q=" + std::to_string(qleft) +
+         " times=" + join(times, ",") + " cancels=" + join(cancels, ",") + " | " + (ok ? stateLine() : std::string("-"));
   if (!ok)
   {
     std::string rep = ds::report();
@@ -490,8 +550,12 @@ std::string stepOp(const std::vector<std::string>& t)
   if (t[0] == "reset" && t.size() == 1) { resetWorld(); return "ok"; }
   if (t[0] == "sched") return runSched(t);
   if (!g) return "no-world";
-  if (t[0] == "connect" && t.size() == 4 && vh::parseNat(t[1], a) && vh::parseNat(t[2], b))
+  if (t[0] == "refuse" && t.size() == 2) { g->e->refuse = t[1] == "1"; return "ok"; }
+  if (t[0] == "connect" && t.size() == 5 && vh::parseNat(t[1], a) && vh::parseNat(t[2], b))
   {
+    u64 tlsv = 0;
+    vh::parseNat(t[4], tlsv);
+    TlsMode tm = tlsv == 1 ? TlsMode::Client : tlsv == 2 ? TlsMode::Server : TlsMode::None;
     // connect <caller> <timeoutMs> <n|c|f|p>: single-threaded, so the wait can only time out; the 4th token says what the
     // I/O thread does inside the unlock window between the timeout and engine->close (nothing / the connect completes /
     // it fails / the Connect is only popped)
@@ -515,13 +579,19 @@ std::string stepOp(const std::vector<std::string>& t)
         if (win == "c") ioComplete(sid);
         else if (win == "f") ioCloseOf(sid, false);
       };
-    ConnectResult r = g->t->connectSync("127.0.0.1", 9, TlsMode::None, std::chrono::milliseconds(b));
+    auto t0 = std::chrono::steady_clock::now();
+    ConnectResult r = g->t->connectSync("127.0.0.1", 9, tm, std::chrono::milliseconds(b));
+    long long elMs = std::chrono::duration_cast<std::chrono::milliseconds>(std::chrono::steady_clock::now() - t0).count();
     e->window = nullptr;
-    return "ret:" + std::to_string(a) + ":" + resName(r) + " " + takeEvs() + " | " + stateLine();
+    // "in time" (real time, generous slack for a loaded sanitizer build): no later than the timeout + 1.5 s
+    std::string el = elMs <= static_cast<long long>(b) + 1500 ? "elapsed-ok" : "elapsed-exceeded:" + std::to_string(elMs) + "ms-for-" + std::to_string(b) + "ms";
+    std::string evs = takeEvs();
+    if (e->refuse) evs = (evs == "-" ? std::string("refused") : evs);
+    return "ret:" + std::to_string(a) + ":" + resName(r) + " " + evs + " " + el + " | " + stateLine();
   }
   if (t[0] == "pop" && t.size() == 2)
   {
-    std::string d = ioPop(t[1] == "1");
+    std::string d = ioPop(t[1] == "1", 1);
     return d + " " + takeEvs() + " | " + stateLine();
   }
   if (t[0] == "complete" && t.size() == 2 && vh::parseNat(t[1], a))
@@ -529,9 +599,11 @@ std::string stepOp(const std::vector<std::string>& t)
     bool ok = ioComplete(a);
     return std::string(ok ? "fired " : "ignored ") + takeEvs() + " | " + stateLine();
   }
-  if ((t[0] == "fail" || t[0] == "peerclose") && t.size() == 2 && vh::parseNat(t[1], a))
+  if (((t[0] == "fail" && t.size() == 3) || (t[0] == "peerclose" && t.size() == 2)) && vh::parseNat(t[1], a))
   {
-    bool ok = ioCloseOf(a, t[0] == "peerclose");
+    u64 rs = 1;
+    if (t[0] == "fail") vh::parseNat(t[2], rs);
+    bool ok = ioCloseOf(a, t[0] == "peerclose", static_cast<int>(rs));
     return std::string(ok ? "fired " : "ignored ") + takeEvs() + " | " + stateLine();
   }
   if (t[0] == "fence" && t.size() == 1)
@@ -539,6 +611,7 @@ std::string stepOp(const std::vector<std::string>& t)
     g->t->_impl->setTeardownFence();
     return "ok | " + stateLine();
   }
+  if (t[0] == "state" && t.size() == 1) return stateLine();
   return "bad-op";
 }
 } // namespace
